@@ -129,6 +129,16 @@ def r3b_scan_window(ctx):
            "the terminator is searched in the whole accumulated buffer after every read" if whole else
            "the header terminator is searched in `%s`, not in the whole accumulated buffer: a terminator that straddles two reads (\\r\\n\\r | \\n) is only found if the window backs up at least len(terminator)-1 bytes, "
            "which this rule cannot establish — a request whose reads split there never completes" % fmt(arg)[:100])
+    # every byte read is appended, as read: what goes into the accumulated buffer is tmp[..n] of this turn's read — nothing is
+    # stripped or rewritten per chunk (a chunk boundary is an accident of the network, not a place in the message)
+    from .C01 import exactly_what_was_read
+    rd = [c for c in body.calls() if (c.norm or "").endswith(("AsyncReadExt::read", "AsyncReadExt::read_buf"))]
+    if rd and len(rd[0].args) > 1:
+        data = o.of_operand(ext[0].args[1])
+        same = exactly_what_was_read(data, o.of_operand(rd[0].args[1]), rd[0].bb)
+        ctx.ob("R17.3", "read_http_header:appends-exactly-what-was-read", same, ext[0].site, "extend_from_slice(&tmp[..n]) with n from this turn's read" if same else
+               "what is appended to the header buffer is `%s`, not exactly the bytes this read returned: something is cut or changed per chunk, so the message the parser sees depends on where the network "
+               "happened to cut it (a line break at the start of a read disappears: two header lines are glued together, or the blank line is never found)" % fmt(data)[:90])
     # what is returned: header = buf[..end], rest = buf[end..] with the same end
     rets = [o.of_operand(rv["ops"][0]) for kind, bi, si, rv in body.defs().get(0, []) if kind == "assign" and rv["r"] == "aggregate" and rv["kind"].get("variant") == "Ok"]
     ok = False
@@ -277,6 +287,18 @@ def r6_target_derivation(ctx):
                "the Host header can overwrite the destination although the request target is in absolute form: `GET http://a:8080/ ` with `Host: b` is dialled at b:80 instead of a:8080")
     else:
         ctx.missing("R17.6", "assignment of the destination host from the Host header in determine_target")
+    # ... and on the absolute-form path the header lines are not consulted at all: RFC 7230 5.4 — the proxy follows the request
+    # target and rewrites Host; a test of the Host line there can only refuse or divert a request whose target was perfectly clear
+    from .common import depends_on_var as _dep
+    hdr = param(body, 2)
+    looks = []
+    for c in conds.all():
+        if c.kind in ("bool", "variant", "int") and any(e and cfg.edges_dominate(sw_true, c.block) for e in [sw_true]) and _dep(o, c.term, hdr):
+            looks.append(c)
+    ctx.ob("R17.6", "determine_target:absolute-form-does-not-consult-the-header-lines", not looks, "src/client/http_proxy.rs:%s" % body.blocks[looks[0].block]["tspan"]["line"] if looks else "",
+           "no decision under the scheme edge depends on the header lines" if not looks else
+           "under the absolute-form edge a decision depends on the header lines (`%s`): `GET http://example.com:80/` with `Host: example.com` — what curl sends — is refused or routed by the Host line "
+           "instead of by its target" % fmt(looks[0].term)[:70])
     # default ports: CONNECT 443; plain 80; https 443
     shp = calls_norm(body, "http_proxy::split_host_port")
     consts = sorted({const_value(o.of_operand(c.args[1])) for c in shp if const_value(o.of_operand(c.args[1])) is not None})
